@@ -54,6 +54,20 @@ async def scenario(loop, plan, w, host_factory=None):
     line = Line(loop, plan.get("fh"), plan.get("fn"), plan.get("fg"), plan.get("ft"))
     w.line = line
     w.h_up = Upper(loop)
+    w.up_raised = 0
+    if plan.get("up_raise"):
+        # the host's upper layer raises while taking some deliveries (after having taken them): delivery is still delivery
+        _dr = w.h_up.data_received
+        cnt = {"n": 0}
+
+        def _data_received(data):
+            _dr(data)
+            cnt["n"] += 1
+            if cnt["n"] in plan["up_raise"]:
+                w.up_raised += 1
+                raise RuntimeError("upper layer failed while handling a frame")
+
+        w.h_up.data_received = _data_received
     w.n_up = []  # payloads handed up on the NCP side
     w.h_sub, w.n_sub = [], []  # submission order (payload) at call time
     w.h_out, w.n_out = {}, {}  # payload -> "ok"/exception name/"cancelled"
@@ -62,7 +76,13 @@ async def scenario(loop, plan, w, host_factory=None):
         host = ash.AshProtocol(w.h_up)
         tr.protocol = host
         host.connection_made(tr)
-        feed_host = host.data_received
+        def feed_host(data):
+            try:
+                host.data_received(data)
+            except RuntimeError as ex:
+                if "upper layer failed" not in str(ex):
+                    raise
+
         host_send = host.send_data
     else:
         host, feed_host, host_send = host_factory(loop, line.h2n.write, w.h_up)
@@ -205,6 +225,8 @@ def check(plan, host_factory=None) -> Result:
         r.cls("number-wrap")
     if w.cancelled:
         r.cls("cancel")
+    if w.up_raised:
+        r.cls("upper-layer-raised-on-delivery")
     if w.h_resets:
         r.cls("host-link-failed")
     if w.ncp.failed:
@@ -261,7 +283,10 @@ def plans(draw):
             hi += 1
     fh = draw(st.lists(fate, max_size=25))
     fn = draw(st.lists(st.one_of(fate, fate, fate, st.integers(1, 6).map(lambda k: ["L", k])), max_size=25))
-    return {"K": K, "ops": ops, "fh": fh, "fn": fn}
+    plan = {"K": K, "ops": ops, "fh": fh, "fn": fn}
+    if draw(st.integers(0, 3)) == 0:
+        plan["up_raise"] = sorted(draw(st.sets(st.integers(1, 12), min_size=1, max_size=4)))
+    return plan
 
 
 @st.composite
